@@ -73,11 +73,14 @@ TListing == Is("listing") /\ Step /\ UNCHANGED absvars
             /\ Len(Ev.removed) = Ev.reported
 
 \* C15: resources are bounded by the live data, not by history
+\* (lock, db meta, index meta, two index files + one meta per segment; two descriptors for the index,
+\* one per segment, the lock; one mapping per file on the memory-mapped file system; bytes: compaction
+\* keeps segments whose garbage share is below the threshold (0.3 in these runs) plus the index)
 TRound == Is("round") /\ Step /\ UNCHANGED absvars
           /\ Ev.files <= 2 * Ev.segs + 6
-          /\ Ev.fds   <= Ev.fds0 + Ev.segs + 4
+          /\ Ev.fds   <= Ev.fds0 + Ev.segs + 6
           /\ Ev.maps  <= Ev.maps0 + Ev.segs + 4
-          /\ Ev.bytes <= Ev.bound
+          /\ Ev.bytes <= 4 * Ev.live + 6 * Ev.maxseg + 65536
 
 \* C17: the same program on several file systems
 AllEqual(s) == \A i \in 1..Len(s) : s[i] = s[1]
@@ -89,6 +92,19 @@ TOpenLocked == Is("open_locked") /\ Step /\ UNCHANGED absvars
                /\ mode = "open"
                /\ ~Ev.ok /\ Ev.ek = "locked" /\ Ev.before = Ev.after
 
+\* C18: the segment files of a cleanly closed database, read by an independent decoder of the
+\* documented format and replayed in sequence order, give exactly the contents
+TDecoded == Is("decoded") /\ Step /\ UNCHANGED absvars
+            /\ mode = "closed" /\ Ev.kv = kv
+
+\* C18: a directory written by the pinned version was opened by the current code: identical
+\* contents, recovery exactly if it had been left unclean; the recording goes on with that state
+TGoldenOpened == Is("golden_opened") /\ Step
+                 /\ mode = "closed"
+                 /\ Observed(Ev, Ev.kv) /\ Ev.kv = Ev.expect /\ Ev.recovered = ~Ev.clean
+                 /\ kv' = Ev.kv /\ mode' = "open" /\ everPut' = Pairs(Ev.kv)
+                 /\ UNCHANGED <<pend, back, cfg, seq, ver, acked, floor, closing, closedLin, img, scans, bk, held>>
+
 \* free-form information for the reader of a recording
 TNote == Is("note") /\ Step /\ UNCHANGED absvars
 
@@ -99,7 +115,7 @@ TNote == Is("note") /\ Step /\ UNCHANGED absvars
 TNext ==
   \/ TReset \/ TInv \/ TRet \/ TLin \/ TScanStart
   \/ TImage \/ TReopened \/ TRestore \/ TContinue \/ TReadAll \/ TBackupOpened
-  \/ TOpenLocked \/ THold \/ TObserve \/ TListing \/ TRound \/ TFsCmp \/ TNote
+  \/ TGoldenOpened \/ TDecoded \/ TOpenLocked \/ THold \/ TObserve \/ TListing \/ TRound \/ TFsCmp \/ TNote
 
 TSpec == TInit /\ [][TNext]_tvars
 
